@@ -436,6 +436,95 @@ def ob_key_storage_class(w, P):
     return cl
 
 
+def ob_fanout_dir_spelling(w, P):
+    """a sharded cache whose directory is spelled with an environment variable or a trailing separator: reopened under the same
+    spelling without a size limit it keeps the limits it was created with, and finds its items"""
+    import os
+    L = w.L
+    w.clock_fn = lambda: 1000.0
+    cl = []
+    os.environ['VERIF_CACHE_ROOT'] = w.dir
+    d = {'envvar': '$VERIF_CACHE_ROOT/fan', 'braces': '${VERIF_CACHE_ROOT}/fan', 'trailing': w.dir + '/fan/'}[P['spelling']]
+    total = 2 * int(w.int('per_shard_limit', 2 ** 20, 2 ** 20 + 3))
+    a = L.fanout.FanoutCache(d, shards=2, size_limit=total)
+    a.set(1, 11)
+    a.set(2, 22)
+    b = L.fanout.FanoutCache(d, shards=2)
+
+    def same(p, q):
+        return EqR(zv(p), zv(q)) if is_num_like(p) and is_num_like(q) else p == q
+    for h, nm in ((b, 'handle reopened without a size limit'), (a, 'first handle')):
+        cl.append(('C13,C18', 'the %s has the per-shard limits the cache was created with (%r)' % (nm, [sh.reset('size_limit') for sh in h._shards]),
+                   all(same(sh.reset('size_limit'), total // 2) for sh in h._shards)))
+    cl.append(('C13,C18', 'and finds the items', same(b.get(1), 11) and same(b.get(2), 22)))
+    flag('nontrivial')
+    return cl
+
+
+def ob_pickle_stale_settings(w, P):
+    """a handle is pickled, the directory's settings are changed afterwards (through any handle), then the pickle is loaded: the
+    copy takes the settings the directory stores now -- unpickling never writes pickling-time settings back"""
+    import pickle
+    L = w.L
+    core = L.core
+    w.clock_fn = lambda: 1000.0
+    cl = []
+    fan = P.get('fanout', False)
+    lim0 = int(w.int('cull_limit_before', 1, 9))
+    lim1 = int(w.int('cull_limit_after', 0, 9))
+    if fan:
+        a = L.fanout.FanoutCache(w.dir, shards=2, cull_limit=lim0, statistics=0)
+    else:
+        a = core.Cache(w.dir, cull_limit=lim0, statistics=0)
+    a.set(1, 11)
+    state = pickle.dumps(a)
+    b = L.fanout.FanoutCache(w.dir, shards=2) if fan else core.Cache(w.dir)
+    b.reset('cull_limit', lim1)
+    b.reset('statistics', 1)
+    c = pickle.loads(state)
+    fresh = L.fanout.FanoutCache(w.dir, shards=2) if fan else core.Cache(w.dir)
+
+    def same(p, q):
+        return EqR(zv(p), zv(q)) if is_num_like(p) and is_num_like(q) else p == q
+    for h, nm in ((c, 'unpickled copy'), (fresh, 'handle opened afterwards'), (b, 'handle that changed them')):
+        cl.append(('C18', 'the %s has the settings stored now (cull_limit %r, statistics %r)' % (nm, h.cull_limit, h.statistics),
+                   And(same(h.reset('cull_limit'), lim1), same(h.reset('statistics'), 1))))
+    cl.append(('C18', 'and the stored item', same(c.get(1), 11)))
+    flag('nontrivial')
+    return cl
+
+
+def ob_jsondisk_cache(w, P):
+    """a Cache over JSONDisk (every key and value goes through the Disk subclass's own put / get / store / fetch): every way of
+    listing keys hands back the stored keys, equal and of the same type, and each finds its value again"""
+    L = w.L
+    core = L.core
+    w.clock_fn = lambda: 1000.0
+    cl = []
+    c = core.Cache(w.dir, disk=core.JSONDisk, disk_compress_level=P.get('level', 1))
+    pairs = [('abc', 1), (1, 'one'), (2.5, [1, 2]), (None, {'k': 'v'}), (True, None), ('', 'empty'), (7, 'x' * 40)]
+    for k, v in pairs:
+        c.set(k, v)
+    keys = [k for k, _ in pairs]
+
+    def same(a, b):
+        return len(a) == len(b) and all(type(p_) is type(q_) and p_ == q_ for p_, q_ in zip(a, b))
+    cl.append(('C02,C01', 'iteration returns the stored keys (%r)' % (list(c),), same(list(c), keys) and same(list(reversed(c)), keys[::-1])))
+    try:
+        ik, ikr = list(c.iterkeys()), list(c.iterkeys(reverse=True))
+    except Exception as e:
+        if type(e).__name__ == 'HarnessBug':
+            raise
+        ik, ikr = [repr(e)], []
+    srt = sorted(keys, key=lambda k_: bytes(core.JSONDisk.put(c.disk, k_)[0]))
+    cl.append(('C02', 'iterkeys returns the stored keys, decoded by the Disk class in use (%r)' % (ik,), same(ik, srt) and same(ikr, srt[::-1])))
+    cl.append(('C02,C01', 'every key finds its own value', all(c.get(k) == v and (k in c) for k, v in pairs)))
+    pk = c.peekitem()
+    cl.append(('C02', 'peekitem returns the last stored key and value', type(pk[0]) is int and pk == (7, 'x' * 40) and c.peekitem(last=False) == ('abc', 1)))
+    flag('nontrivial')
+    return cl
+
+
 def ob_fresh_connection_busy(w, P):
     """the first operations of a handle on a fresh connection (after close(), or from a thread that has not used the object
     yet) while another client holds the write lock: opening the connection only re-applies the stored sqlite_* pragmas, so
@@ -502,6 +591,14 @@ def ob_fresh_connection_busy(w, P):
 def jobs(tier):
     out = []
     F = ['core.Cache.__init__', 'core.Cache._con', 'core.Cache.reset', 'core.Cache.close', 'core.Cache.__getstate__', 'core.Cache.__setstate__']
+    for fan in (False, True):
+        out.append(dict(id='persist.pickle_stale_settings%s' % ('.fanout' if fan else ''), func='ob_pickle_stale_settings', params=dict(fanout=fan), tags=['C18'],
+                        functions=['core.Cache.__getstate__', 'core.Cache.__setstate__', 'fanout.FanoutCache.__getstate__', 'fanout.FanoutCache.__setstate__', 'core.Cache.reset'], weight=4, twin=False))
+    for sp in ('envvar', 'braces', 'trailing'):
+        out.append(dict(id='persist.fanout_dir_spelling.%s' % sp, func='ob_fanout_dir_spelling', params=dict(spelling=sp), tags=['C13', 'C18'],
+                        functions=['fanout.FanoutCache.__init__', 'core.Cache.__init__'], weight=4, twin=False))
+    out.append(dict(id='persist.jsondisk_cache', func='ob_jsondisk_cache', params={}, tags=['C02', 'C01'], functions=['core.Cache.iterkeys', 'core.Cache._iter', 'core.Cache.peekitem', 'core.JSONDisk.put', 'core.JSONDisk.get'],
+                    weight=3, twin=False))
     out.append(dict(id='persist.key_storage_class', func='ob_key_storage_class', params={}, tags=['C02', 'C18'], functions=['core.Cache.__init__', 'core.Cache.set', 'core.Cache.get', 'core.Disk.put', 'core.Disk.get'],
                     weight=3, twin=False))
     for how in ('closed', 'thread'):
